@@ -9,12 +9,56 @@ import (
 )
 
 func vpDB() database.Database {
-	return database.NewConfig([]config.UserConfig{{Username: "ab", Password: "pw-ab"}, {Username: "cd", Password: ""}, {Username: "ef", Password: "pw-ef"}})
+	return database.NewConfig([]config.UserConfig{{Username: "ab", Password: "pw-ab"}, {Username: "cd", Password: ""}, {Username: "ef", Password: "pw-ef"}, {Username: "gh", Password: "p$w"}})
+}
+
+//vp:all model os.ExpandEnv = vpmExpandEnv
+
+// os.ExpandEnv as documented (os.Expand with os.Getenv), in an environment that defines none of the
+// names a password of vpDB could be taken to refer to: $name and ${name} become the empty string, a
+// "$" that no name follows stays.
+func vpmExpandEnv(s string) string {
+	out := []byte{}
+	isName := func(c byte) bool {
+		return c == '_' || (c >= '0' && c <= '9') || (c >= 'a' && c <= 'z') || (c >= 'A' && c <= 'Z')
+	}
+	for i := 0; i < len(s); {
+		if s[i] != '$' || i+1 >= len(s) {
+			out = append(out, s[i])
+			i++
+			continue
+		}
+		c := s[i+1]
+		switch {
+		case c == '{':
+			j := i + 2
+			for j < len(s) && s[j] != '}' {
+				j++
+			}
+			if j < len(s) {
+				i = j + 1
+			} else {
+				i += 2 // bad syntax: "${" is eaten
+			}
+		case c == '*' || c == '#' || c == '$' || c == '@' || c == '!' || c == '?' || c == '-':
+			i += 2 // shell special variable, undefined
+		case isName(c):
+			j := i + 1
+			for j < len(s) && isName(s[j]) {
+				j++
+			}
+			i = j
+		default:
+			out = append(out, '$')
+			i++
+		}
+	}
+	return string(out)
 }
 
 //vp:property C14
 //vp:set k 3 4
-//vp:bounds K requests (quick 3, thorough 4) over three session identifiers (two of them differing by a trailing blank only); each request is one of {negotiate, authenticate for a 2-character user name with symbolic characters, undecodable base64, a non-NTLM byte string, empty message}; user database {"ab","ef": non-empty passwords, "cd": empty password}; the client's proof was computed from an arbitrary password of {empty, ab's, ef's, another} under the name it sends or under ab's/ef's name, against the challenge of an arbitrary server session created so far or against the empty challenge; the library may panic inside ProcessAuthenticateMessage, before or after it verified the proof; cached contexts may or may not expire between requests
+//vp:bounds K requests (quick 3, thorough 4) over three session identifiers (two of them differing by a trailing blank only); each request is one of {negotiate, authenticate for a 2-character user name with symbolic characters, undecodable base64, a non-NTLM byte string, empty message}; user database {"ab","ef": non-empty passwords, "cd": empty password, "gh": a password with a "$" in it}; the client's proof was computed from an arbitrary password of {empty, ab's, ef's, another, gh's} under the name it sends or under ab's/ef's name, against the challenge of an arbitrary server session created so far or against the empty challenge; the library may panic inside ProcessAuthenticateMessage, before or after it verified the proof; cached contexts may or may not expire between requests
 //vp:assume go-ntlm's ProcessAuthenticateMessage compares against the response key it derived at the session's FIRST authenticate message (fetchResponseKeys caches it) and this session's challenge; go-cache contract
 //vp:reach authenticated challenged refused
 func VP_C14_history() {
@@ -45,10 +89,10 @@ func VP_C14_history() {
 			// what the client computed its proof from: any of the passwords around, under the name it
 			// sends or under another account's name (an attacker need not be consistent)
 			vpMsgUser = user
-			vpProofPwId = vpInt("proof-pw-" + is) // 0: the empty password, 1: ab's password, 2: ef's password, 3: some other password
+			vpProofPwId = vpInt("proof-pw-" + is) // 0: the empty password, 1: ab's password, 2: ef's password, 3: some other password, 4: gh's password
 			vpProofUserSel = vpInt("proof-user-" + is)
 			vpClientSess = vpInt("client-session-" + is)
-			vpAssume(vpAnd(vpAnd(vpProofPwId >= 0, vpProofPwId <= 3), vpAnd(vpAnd(vpProofUserSel >= 0, vpProofUserSel <= 2), vpAnd(vpClientSess >= -1, vpClientSess <= 3))))
+			vpAssume(vpAnd(vpAnd(vpProofPwId >= 0, vpProofPwId <= 4), vpAnd(vpAnd(vpProofUserSel >= 0, vpProofUserSel <= 2), vpAnd(vpClientSess >= -1, vpClientSess <= 3))))
 		case 2:
 			vpWireBad[text] = true
 		case 3:
@@ -73,7 +117,7 @@ func VP_C14_history() {
 			vpAssert(hadCtx && ctxBefore != nil, "authenticated-only-with-a-context-from-an-earlier-request-of-this-session")
 			s := live[sid]
 			vpAssert(s != nil && s.negotiated, "authenticated-only-after-a-negotiate-in-the-same-session")
-			want := map[string]string{"ab": "pw-ab", "ef": "pw-ef"}[user]
+			want := map[string]string{"ab": "pw-ab", "ef": "pw-ef", "gh": "p$w"}[user]
 			vpAssert(want != "", "authenticated-user-is-configured-with-a-non-empty-password")
 			if s != nil {
 				vpAssert(s.pw == want && s.user == user, "verified-against-the-configured-password-of-the-named-user")
@@ -101,8 +145,8 @@ func VP_C14_history() {
 			}
 		}
 		// completeness: a client that knows the password and follows the exchange is authenticated
-		if kind == 1 && user == "ab" && hadCtx {
-			if s := live[sid]; s != nil && s.negotiated && s.processed == 1 && vpProofPwId == 1 && vpProofUserSel == 0 && vpClientSess == s.id && !vpBool("expired-"+is) {
+		if kind == 1 && (user == "ab" || user == "gh") && hadCtx {
+			if s := live[sid]; s != nil && s.negotiated && s.processed == 1 && vpProofPwId == map[string]int{"ab": 1, "gh": 4}[user] && vpProofUserSel == 0 && vpClientSess == s.id && !vpBool("expired-"+is) {
 				vpAssert(r.Authenticated, "correct-proof-right-after-the-challenge-is-authenticated")
 			}
 		}
